@@ -40,7 +40,10 @@ def run(prog, rep, tier):
                 rep.ob('R04.1', ok, 'R04.1|%s|%s|under-unauth-arm' % (rd.nkey, b.term.cmethod),
                        '%s only under the DataEvenUnauthenticated arm' % b.term.cmethod if ok else
                        '%s reachable without taking the DataEvenUnauthenticated arm' % b.term.cmethod, rd.loc(b.idx))
-            reach_auth = rd.reachable(au_t) if au_t is not None else set()
+            # the mode is a field this function never writes (R04.2 lists its writers): a path that re-enters the switch (a loop around it)
+            # and leaves by the unauthenticated edge is a path on which the mode IS DataEvenUnauthenticated, so that edge is cut
+            mode_written = any(s.kind == 'assign' and place_fields(s.place)[-1:] == ['decryption_mode'] for b in rd.blocks for s in b.stmts)
+            reach_auth = rd.reachable(au_t, removed_edges=[] if mode_written else [(sbb, un_t)]) if au_t is not None else set()
             bad = [b for b in ucalls if b.idx in reach_auth]
             rep.ob('R04.1', not bad and au_t is not None, 'R04.1|%s|auth-arm-clean' % rd.nkey,
                    'OnlyAuthenticatedData arm reaches no unauthenticated call' if not bad else 'OnlyAuthenticatedData arm reaches %s' % bad[0].term.cmethod, rd.loc(sbb))
@@ -196,6 +199,45 @@ def run(prog, rep, tier):
                             o = origins(rd, [bt.discr.place[0]] if bt.discr.place else [], through_calls=True)
                             if any(f[1:] in latch_fields or f[1:] and tuple(f[1:]) in latch_fields for f in o.fields):
                                 guarded = True
+            # every path that starts on the Err edge of an authenticated read, is consistent with the error being the wrong-tag one, and
+            # ends in an Ok(..) result passes through the latch store (an earlier arm / guard must not swallow the error without latching)
+            if latch_fields:
+                latch_blocks = [b.idx for b in rd.blocks if not b.cleanup and any(
+                    s.kind == 'assign' and s.place[0] == 1 and tuple(place_fields(s.place)) in latch_fields for s in b.stmts)]
+                cut = []
+                for ebb, esi in arm_of_enum_switch(prog, rd, adt='errors::Error'):
+                    wt = enum_arm_target(esi, 'AuthenticatedDecryptionWrongTag')
+                    keep = wt if wt is not None else esi['otherwise']
+                    for t in set(list(esi['arms'].values()) + [esi['otherwise']]):
+                        if t is not None and t != keep:
+                            cut.append((ebb, t))
+                acalls = [b for b in rd.calls() if b.term.cmethod == 'read_internal']
+                n_err = 0
+                for ac in acalls:
+                    # paths from the return of read_internal that are consistent with "it returned Err(AuthenticatedDecryptionWrongTag)":
+                    # at a switch on that Result only the Err edge is followed, at a switch on the Error only the wrong-tag edge
+                    rcut = list(cut)
+                    for rbb, rsi in arm_of_enum_switch(prog, rd, adt='std::result::Result'):
+                        o = origins(rd, [rsi['place'][0]], through_calls=True)
+                        if ac.idx not in o.calls:
+                            continue
+                        et = enum_arm_target(rsi, 'Err')
+                        if et is None:
+                            continue
+                        n_err += 1
+                        for t in set(list(rsi['arms'].values()) + [rsi['otherwise']]):
+                            if t is not None and t != et:
+                                rcut.append((rbb, t))
+                    r = rd.reachable(ac.term.target, removed_blocks=latch_blocks, removed_edges=rcut) if ac.term.target is not None else set()
+                    oks = [b.idx for b in rd.blocks if b.idx in r and not b.cleanup and any(
+                        s.kind == 'assign' and s.rv.r == 'aggregate' and s.rv.j.get('variant') == 'Ok' and 'Result' in (s.rv.j.get('adt') or '') for s in b.stmts)]
+                    okp = not oks
+                    rep.ob('R04.4', okp, 'R04.4|%s|wrong-tag-error|ok-exit-without-latch' % rd.nkey,
+                           'every Ok exit after a wrong-tag error of read_internal passes through the latch store' if okp else
+                           'a wrong-tag error returned by read_internal can reach an Ok(..) result without setting %s: the next read resumes with the chunk after the failed one'
+                           % sorted('.'.join(f) for f in latch_fields), rd.loc(oks[0] if oks else ac.idx))
+                if not n_err:
+                    rep.ob('R04.4', False, 'R04.4|%s|wrong-tag-error|err-edge-anchor' % rd.nkey, 'no switch on the Result of read_internal found', rd.loc())
             ok = bool(latch_fields) and guarded
             rep.ob('R04.4', ok, 'R04.4|%s|wrong-tag-arm|no-latch' % rd.nkey,
                    'wrong-tag arm latches %s and later reads test it' % sorted(latch_fields) if ok else
